@@ -17,24 +17,14 @@ T = {
          "The correspondence run compares every call's (status, consumed) and the public fields for thousands of schedules incl. all 2^(n-1) cuts of "
          "short streams and exact-limit CR|LF cuts, and checks whole-vs-split directly on the implementation.",
          "rhymuri is an arbitrary function parameter of the theorem (holds for every oracle)."),
- "C02": ("Theorem C02_response_delivery_independent: same statement for Response::parse with [same_response] = same code, reason, final headers, "
-         "body and boundary (consumed minus trailing data); covers fixed, chunked (all four decoder sub-states, extensions, folded trailers) and "
-         "body-less framing; proved from resp_parse_spec / chunk_decode_app (chunk loop induction). Correspondence: per-call trace, fields, trailing "
-         "data = delivered bytes after the boundary, all cuts of short chunked streams.",
-         "That the trailing data equals the delivered bytes after the boundary is proved for one call (C04_accept_sound) and checked per schedule by the run; the delivery theorem fixes the boundary."),
- "C03": ("Theorems C03_accept_sound / C03_accept_complete / C03_grammar_unambiguous / C03_prefix_needs_more / C03_header_block_exact: Complete is reported "
-         "exactly on the request grammar of Spec/RequestGrammar.v + Spec/HeaderGrammar.v (written without reference to the parser), with method, target, "
-         "unfolded and trimmed header list and body exactly the grammar's elements and the boundary at their end; proper prefixes get 'more input'. "
-         "Partial: the category named for each kind of malformed input is not a separate theorem; the model's categories are compared with the crate on every case.",
-         "uri_parse is a parameter; the target is 'a valid URI reference' iff rhymuri accepts it."),
- "C04": ("Theorems C04_accept_sound / C04_accept_complete / C04_prefix_needs_more: Complete exactly on the response grammar (Spec/ResponseGrammar.v) with the framing "
-         "order Content-Length, then chunked (IsChunked of C05, stored headers = the C12 rewriting), then none; trailing data = the bytes of the call after the "
-         "boundary, verbatim; nothing consumed beyond a chunked or body-less message. Partial as C03 for error categories.", ""),
- "C05": ("Theorems C05_decodes_exactly (every IsChunked encoding -> exactly payload and trailers, stops at its end), C05_complete_only_if_wellformed (Complete => "
-         "IsChunked of the consumed bytes, body = concatenation of the declared data ranges), C05_grammar_unambiguous, C05_delivery_independent and "
-         "C05_decodes_exactly_under_any_delivery; induction on the chunk list / the decoder loop. Correspondence through Response::parse: generated encodings, "
-         "mutations and all strings up to length 4 (quick) / 6 (thorough) over a 10-symbol structural alphabet.",
-         "The trailer section is specified by reference to the header-block parser (whose grammar is Spec/HeaderGrammar.v, C03_header_block_exact); chunk extensions: any valid UTF-8 without CRLF."),
+ "C02": ("Theorem C02_response_delivery_independent: for every stream and non-empty list of deliveries, feeding the deliveries under the documented protocol ends like the one call on the whole stream, with [same_response] = same code, reason, final headers, body and boundary (consumed minus trailing data); covers fixed, chunked (all four decoder sub-states, extensions, folded trailers) and body-less framing; proved from resp_parse_spec / chunk_decode_app (chunk loop induction). Theorem C02_trailing_data_exact: under any delivery schedule the trailing data held at completion is exactly the delivered bytes from the boundary to the end of the completing delivery. Correspondence: per-call trace, fields, trailing data, all cuts of short chunked streams, header lines around 1000 bytes cut at CR|LF.",
+         ""),
+ "C03": ("Theorems C03_accept_sound / C03_accept_complete / C03_grammar_unambiguous / C03_prefix_needs_more / C03_header_block_exact: Complete is reported exactly on the request grammar of Spec/RequestGrammar.v + Spec/HeaderGrammar.v (written without reference to the parser), with method, target, unfolded and trimmed header list and body exactly the grammar's elements and the boundary at their end; proper prefixes get 'more input'. C03_more_input_only_while_unfinished (timeliness). C03_rejection_names_first_defect: a fresh parser rejects with category e if and only if the input has a first offending element of category e (Spec/Rejections.v request_defect: line too long / not text / each request-line shape defect / first defective header line with its category / bad Content-Length / each way of exceeding the maximum), with C03_header_rejection_names_first_defect and C03_request_line_shape for the sub-parsers. Each defect needs at most the request line and header block, so the rejection is timely.",
+         "uri_parse is a parameter; the target is 'a valid URI reference' iff rhymuri accepts it. A final CR of a buffer is held back before the header parser sees it (F1/F2), which the rejection spec states explicitly (strip_cr)."),
+ "C04": ("Theorems C04_accept_sound / C04_accept_complete / C04_prefix_needs_more: Complete exactly on the response grammar (Spec/ResponseGrammar.v) with the framing order Content-Length, then chunked (IsChunked of C05, stored headers = the C12 rewriting), then none; trailing data = the bytes of the call after the boundary, verbatim; nothing consumed beyond a chunked or body-less message. C04_more_input_only_while_unfinished (timeliness). C04_rejection_names_first_defect: rejection with category e iff the input has a first offending element of category e (response_defect: status line not text, each status-line shape defect incl. code >= 1000, first defective header line, bad Content-Length, and inside a chunked body the first bad size line / terminator / trailer line via chunked_defect); C04_status_line_shape.",
+         ""),
+ "C05": ("Theorems C05_decodes_exactly (every IsChunked encoding -> exactly payload and trailers, stops at its end), C05_complete_only_if_wellformed (Complete => IsChunked of the consumed bytes, body = concatenation of the declared data ranges), C05_grammar_unambiguous, C05_delivery_independent, C05_decodes_exactly_under_any_delivery, and C05_rejection_names_first_defect (the decoder rejects with category e iff the input is well-formed chunks followed by a first offending element of category e: size line not text / not 1*HEXDIG fitting usize, chunk not followed by CRLF, defective trailer line); induction on the chunk list / the decoder loop. Correspondence through Response::parse: generated encodings, mutations and all strings up to length 4 (quick) / 6 (thorough) over a 10-symbol structural alphabet.",
+         "The trailer section is specified by reference to the header-block parser (whose grammar is Spec/HeaderGrammar.v, C03_header_block_exact, and whose rejections are block_defect); chunk extensions: any valid UTF-8 without CRLF."),
  "C06": ("PARTIAL by nature. Proved on the model: consumed <= presented for all three parsers (slice ranges), body never longer than the declared length "
          "(no usize underflow), the byte count saturates, str-slicing indices next to an ASCII delimiter of a UTF-8-valid line are char boundaries "
          "(C06_slices_at_char_boundaries, for multi-byte text at any position). Runtime part: every case of the run executes under catch_unwind in a supervised "
@@ -44,10 +34,7 @@ T = {
          "to that call, for declared lengths 0..2^64-1; C07_*_growth: the body/chunk buffers grow by at most what the call consumed. Runtime part: a counting global "
          "allocator measures the largest single request and the peak during each parse call; bound 4096+8*presented / 16384+24*presented; allocations above 1 GiB are refused so that an abort is observed.",
          "Real allocator traffic (Vec doubling, error payloads, dependency Strings) is measured, not proved."),
- "C08": ("Theorems C08_accepted_request_line_within_limit, C08_accepted_within_max (count computed without wrap-around), C08_declared_length_cannot_bypass (any declared length up to "
-         "2^64-1), C08_need_more_only_within_max (under every delivery schedule, consumed + pending <= max whenever more input is requested), "
-         "C08_none_disables_only_request_line_limit; defaults and exact boundary behaviour as Examples; never-rejected-for-size within limits follows from C03_accept_complete whose grammar "
-         "carries the limits. Correspondence: limits swept -2..+2 around the measured element lengths, both build profiles.",
+ "C08": ("Theorems C08_accepted_request_line_within_limit, C08_accepted_within_max (count computed without wrap-around), C08_declared_length_cannot_bypass (any declared length up to 2^64-1), C08_need_more_only_within_max (under every delivery schedule, consumed + pending <= max whenever more input is requested), C08_none_request_line_limit / C08_none_header_line_limit / C08_none_max_message_size (a call not answered with limit X's rejection gives the same answer and state with X = None, the other two limits unchanged: None disables exactly that limit); defaults and exact boundary behaviour as Examples; never-rejected-for-size within limits follows from C03_accept_complete whose grammar carries the limits, and C03_rejection_names_first_defect says exactly when each size rejection is issued. Correspondence: limits swept -2..+2 around the measured element lengths, both build profiles.",
          "Known finding K1 (rhymessage does not limit folded continuation lines) is stated as an Example and reported as KNOWN-FINDING; header-line limit theorems are inside C03's grammar (first lines + empty line)."),
  "C09": ("Theorems C09_request_suffix / C09_request_local / C09_response_suffix / C09_request_pipeline / C09_response_pipeline: a Complete answer is "
          "unchanged by any appended bytes, depends only on the consumed bytes, and a concatenation of messages is split by fresh parsers at the "
@@ -79,9 +66,8 @@ T = {
          "C17_request_content_length (any accepted request under any delivery schedule: Content-Length value is digits only), C17_status_code, "
          "C17_chunk_size, C17_response_content_length, and C17_std_parser_extra (what the pre-fix std parsers accepted in addition: exactly a leading '+'). "
          "Correspondence: exhaustive short strings over a 16-symbol alphabet plus every single byte value in each of the fields, inserted non-digits, repeated Content-Length under deliveries.", ""),
- "C18": ("Theorems C18_lookups_ignore_case, C18_response_framing_ignores_case + C18_resp_headers_uses_framing, C18_request_framing_ignores_case, C18_decode_body_ignores_case, "
-         "C18_decode_text_ignores_case: over header lists equal up to ASCII case of names and values, every lookup, the framing decision, the decoded body and the decoded text are equal.",
-         "Stated over header lists (the block parser stores names and values verbatim); that case variants of the message bytes give case-variant lists is checked by the run, not proved. encoding_rs's label lookup being case-insensitive is a hypothesis."),
+ "C18": ("Theorems over header lists: C18_lookups_ignore_case, C18_response_framing_ignores_case + C18_resp_headers_uses_framing, C18_request_framing_ignores_case, C18_decode_body_ignores_case, C18_decode_text_ignores_case, C18_dechunk_rewrite_ignores_case. Theorems over message bytes: C18_header_block_parser_ignores_case (parsing blocks equal up to ASCII case gives the same answer, the same consumed count and lists equal up to case), C18_response_bytes and C18_request_bytes (any change of letter case inside the header block of a message leaves verdict, consumed count, start-line fields, body, trailing data and parser phase unchanged; stored headers equal up to case, also after the de-chunking rewrite).",
+         "Letter case inside a chunked trailer section is covered by the run and by the list-level theorems (trailer framing filter), not by the byte-level theorem. encoding_rs's label lookup being case-insensitive is a hypothesis."),
 }
 
 DEFAULT_TEXT = "see DESIGN.md section 6"
